@@ -376,9 +376,15 @@ def shrink(line):
 
 
 LEVEL_TEXT = ('Lean 4 theorems about Model.Skein (the hand-written mirror of crysp/skein.py on Model.Bits and Model.Threefish) against Spec.Skein '
-              '(Skein 1.3: UBI, configuration block, output function, tree hashing); tie to the code: translator (Threefish tables) + a grid-shaped '
-              'correspondence stream that also evaluates an independent Python reference on the real code.')
+              '(Skein 1.3: UBI, configuration block, output function, tree hashing), all at full strength: tweak_fields (setters touch exactly their '
+              'field), bitpad_refines (every L mod 8), iterblocks_refines / ubi_refines (every G, M, bit length, start tweak incl. positions near '
+              '2^64/2^96; rejected otherwise), cfg_refines, output_refines, skein_refines (three state sizes, every No, key absent/empty/any, '
+              'prs/PK/kdf/nonce), tree_refines (every Yl,Yf <= 255, Ym <= 255, every message and bit length), output_length(_tree) = ceil(No/8), '
+              'skein_rejects_params. Through C02 (Threefish) the block cipher inside is the standard one. Tie to the code: translator (Threefish '
+              'tables) + a grid-shaped correspondence stream that also evaluates an independent Python reference on the real code.')
 LEVEL_NOTE = ('Trusted: Lean kernel; axioms within {propext, Classical.choice, Quot.sound}; extract.py/runcheck.py/props/C12.py; Spec.Skein/Spec.Threefish '
               'as renderings of the Skein 1.3 text (no executable Skein oracle offline: text + 11 published vectors + agreement of three independent '
-              'implementations). Theorem list (full vs _partial): evidence/C12.json coverage.theorems.')
-TECHNIQUE = 'Lean 4 proof (Bits slice-assignment frame lemmas, induction over blocks, refinement through Threefish) + correspondence check'
+              'implementations: crysp, Lean Spec, Python reference). Hypotheses of the theorems: inputs are byte strings (elements < 256), '
+              'L <= 8|M|, lengths below the 2^96-byte limit of the position field. Tree mode with a bit length: the specification text splits a '
+              'byte string; the Spec here puts the bit padding into the last leaf (the natural reading), and crysp was repaired to do the same.')
+TECHNIQUE = 'Lean 4 proof (Bits slice-assignment closed forms, kernel enumeration for reverse_byte, induction over blocks / tree levels, refinement through Threefish) + correspondence check'
